@@ -284,8 +284,9 @@ class CasXmiDeserializer:
                         if isinstance(value, list) or isinstance(value, str):
                             fs[feature_name] = self._parse_fs_list(feature_structures, feature.rangeType, value)
                     else:
+                        # A reference to cas:NULL (xmi:id 0) is a null value, as it is inside arrays and lists
                         target_id = int(value)
-                        fs[feature_name] = feature_structures[target_id]
+                        fs[feature_name] = feature_structures[target_id] if target_id != 0 else None
 
         # The byte array of a sofa is given as a reference as well
         for sofa in sofas.values():
